@@ -239,6 +239,15 @@ func (m *membership) universalIDByPartyID(id PartyID) UniversalID {
 	return m.pID2UID[id]
 }
 
+// sessionNodes maps each party to the node that represents it among the given session participants.
+func (m *membership) sessionNodes(participants []UniversalID) map[PartyID]UniversalID {
+	res := make(map[PartyID]UniversalID)
+	for _, uID := range participants {
+		res[m.partyIDByUniversalID(uID)] = uID
+	}
+	return res
+}
+
 func computeMembership(mapping map[UniversalID]PartyID) *membership {
 	protocol2universal := make(map[PartyID]UniversalID)
 	universal2Protocol := make(map[UniversalID]PartyID)
@@ -316,7 +325,7 @@ func (s *Scheme) runDKG(ctx context.Context, membership *membership, dkgProtocol
 
 		s.Logger.Debugf("Running keygen with parties %v", members)
 
-		if err := s.initializeDKG(dkgProtocolInstance, t, UIntsToUniversalIDs(members), membership); err != nil {
+		if err := s.initializeDKG(dkgProtocolInstance, t, UIntsToUniversalIDs(members), parties, membership); err != nil {
 			s.Logger.Errorf("Failed initializing DKG: %v", err)
 			resultChan <- mpcResult{err: err}
 			return
@@ -636,12 +645,14 @@ func (s *Scheme) prepareSigning(membership *membership, parties []PartyID, topic
 	return signingProtocol, signingProtocol.SetShareData(s.StoredData)
 }
 
-func (s *Scheme) initializeDKG(dkg KeyGenerator, threshold int, members []UniversalID, membership *membership) error {
+func (s *Scheme) initializeDKG(dkg KeyGenerator, threshold int, members []UniversalID, parties []PartyID, membership *membership) error {
 	membersWithoutMe := excludeUniversal(members, s.SelfID)
 
 	dkgTopicHash := hash([]byte(DkgTopicName))
 
-	dkg.Init(universalIDsToUInts(members), threshold, func(msg []byte, isBroadcast bool, to uint16) {
+	nodeOfParty := membership.sessionNodes(members)
+
+	dkg.Init(partyIDsToUInts(parties), threshold, func(msg []byte, isBroadcast bool, to uint16) {
 		var payload []byte
 		payload = append(payload, 255)
 		payload = append(payload, msg...)
@@ -649,7 +660,12 @@ func (s *Scheme) initializeDKG(dkg KeyGenerator, threshold int, members []Univer
 			s.Send(uint8(MsgTypeMPC), dkgTopicHash, payload, membersWithoutMe...)
 			return
 		}
-		s.Send(uint8(MsgTypeMPC), dkgTopicHash, payload, membership.universalIDByPartyID(PartyID(to)))
+		dst, exists := nodeOfParty[PartyID(to)]
+		if !exists {
+			s.Logger.Warnf("Party %d does not participate in this key generation, dropping message to it", to)
+			return
+		}
+		s.Send(uint8(MsgTypeMPC), dkgTopicHash, payload, dst)
 	})
 
 	return nil
